@@ -132,6 +132,28 @@ func (a *agg) addSnap(s *snap) {
 	}
 }
 
+// procsFor gives each shard of a concurrency engine its own GOMAXPROCS, so that one check
+// explores several scheduling regimes: full parallelism (0 = all cores), and few processors,
+// where a goroutine that loses its processor between two critical sections stays away for a
+// whole time slice - a delay injected between any two instructions without touching the source.
+// VERIF_PROCS=n forces one value (0 = default) for every shard, e.g. for a replay.
+var procsTable = []int{0, 2, 4, 0, 3, 8, 0, 2, 6, 0, 4, 2, 0, 3, 12, 5}
+
+func procsFor(shard int, replay bool) int {
+	if v := os.Getenv("VERIF_PROCS"); v != "" {
+		n, _ := strconv.Atoi(v)
+		return n
+	}
+	if replay {
+		return 0
+	}
+	p := procsTable[shard%len(procsTable)]
+	if p > ncpu {
+		p = 0
+	}
+	return p
+}
+
 func env(extra ...string) []string {
 	e := []string{}
 	for _, kv := range os.Environ() {
@@ -240,6 +262,9 @@ func runShard(id, tier string, seed int64, shard, nshards int, cfg propCfg, work
 		ev := env("HOME="+home, "TMPDIR="+tmpd, "VERIF_ROOT="+root, "GOTRACEBACK=all")
 		if cfg.race {
 			ev = append(ev, "GORACE=halt_on_error=0 exitcode=0 log_path="+base+".race history_size=3")
+			if p := procsFor(shard+int(seed&0xffff), only >= 0); p > 0 {
+				ev = append(ev, "GOMAXPROCS="+strconv.Itoa(p))
+			}
 		}
 		cmd.Env = ev
 		errf, _ := os.Create(base + ".stderr")
@@ -768,6 +793,11 @@ func check(id, tier string, only int, onlyStream string, writeEvidence bool) int
 	}
 	if cfg.race {
 		sort.Strings(raceKeys)
+		procs := []int{}
+		for s := 0; s < nshards; s++ {
+			procs = append(procs, procsFor(s+int(seed&0xffff), only >= 0))
+		}
+		cov["gomaxprocs_by_shard"] = procs
 		cov["race_reports"] = raceKeys
 		cov["race_detector"] = "on"
 	}
